@@ -36,13 +36,16 @@ def handle (cmd : String) (args : List String) : Option String :=
                          opts := ← parseOpts opts, order := ← fromHex order }
     let r := orderedPhase (fullOrder a.order) (optSet a.opts 53 [a.mt])
     let remaining := r.2.map (·.1)
-    let wire ← optHex? wire
-    -- no wire order (the implementation panicked): the map iteration order is unknown; a panic depends only on
-    -- which option comes last, so look for a last element that makes the model panic too
+    -- `nil`: the implementation returned nil (buffer under 300 bytes, or no room for the options and the end marker)
+    let wantPanic := wire != "nil"
+    let wire ← if wire == "nil" then some none else optHex? wire
+    -- no wire order (the implementation panicked or returned nil): the map iteration order is unknown; a panic of the
+    -- scratch-buffer write depends only on which option comes last, so look for a last element under which the model
+    -- panics too (respectively does not panic)
     let tail := match wire with
       | some w => w.drop r.1.length
       | none =>
-        match remaining.find? (fun k => (encodeDHCP4 b a (remaining.filter (· != k) ++ [k])).isPanic) with
+        match remaining.find? (fun k => (encodeDHCP4 b a (remaining.filter (· != k) ++ [k])).isPanic == wantPanic) with
         | some k => remaining.filter (· != k) ++ [k]
         | none => remaining
     if !isPerm tail remaining then some "bad-tail"
